@@ -371,6 +371,15 @@ def check_account(ck, P, rid, rid_arena):
         if kind != "read":
             writers.setdefault(f.name, []).append((node, kind))
     allowed = {"model_allocator_lp_init", "rs_malloc", "rs_free", "rs_realloc", "model_allocator_checkpoint_restore"}
+    # a static helper extracted from one of them writes on its behalf
+    helper_of = {}
+    for a_name in sorted(allowed):
+        af = P.fn_opt(a_name)
+        if af is None:
+            continue
+        for hfn in Q.with_helpers(P, af)[1:]:
+            helper_of[hfn.name] = a_name
+    allowed = allowed | set(helper_of)
     for w in writers:
         if w not in allowed:
             ck.violated(rid, "account-writer:%s" % w, writers[w][0][0].where, "%s modifies the checkpoint size account" % w, cfg)
@@ -421,6 +430,16 @@ def check_account(ck, P, rid, rid_arena):
     else:
         ck.violated(rid, "account:malloc-block", f.where, "rs_malloc does not charge the allocated block to the checkpoint account exactly once (%d increments)" % len(blk), cfg)
     addat = [s for s in f.walk() if s.k == "StmtExpr" and s.macros and s.macros[0] == "array_add_at"]
+    if not addat and not hdr:
+        # arena creation extracted into a helper of rs_malloc: check the pairing there
+        for hname, owner in helper_of.items():
+            if owner != "rs_malloc":
+                continue
+            hf, hst = stores(hname)
+            h_add = [s for s in hf.walk() if s.k == "StmtExpr" and s.macros and s.macros[0] == "array_add_at"]
+            h_hdr = [s for s in hst if s.op == "+=" and X.const_int(s.children[1]) == hdr_arena]
+            if h_add:
+                f, addat, hdr = hf, h_add, h_hdr
     if len(hdr) == 1 and len(addat) == 1:
         g = f.cfg
         first = next(x for x in addat[0].walk() if x.id in g.pos)
